@@ -1,0 +1,29 @@
+//! A second macro-generated state type, compiled only under `--cfg unhindered_ec_verif`.
+//!
+//! It exists so that verification tooling can exercise `#[push_state(builder)]` on a struct
+//! whose stacks are named, ordered and renamed differently from [`PushState`](super::push_state::PushState).
+use std::collections::HashMap;
+
+use ordered_float::OrderedFloat;
+
+use crate::{
+    instruction::{PushInstruction, variable_name::VariableName},
+    push_vm::{program::PushProgram, stack::Stack},
+};
+
+#[derive(Default, Debug, Clone, Eq, PartialEq)]
+#[push_macros::push_state(builder)]
+pub struct AltState {
+    #[stack(builder_name = flags)]
+    pub bool: Stack<bool>,
+    #[stack]
+    pub float: Stack<OrderedFloat<f64>>,
+    #[stack(exec)]
+    pub work: Stack<PushProgram>,
+    #[stack(builder_name = counters)]
+    pub int: Stack<i64>,
+    #[input_instructions]
+    pub inputs: HashMap<VariableName, PushInstruction>,
+    #[instruction_step_limit]
+    pub steps: usize,
+}
